@@ -26,6 +26,8 @@ import (
 	"rare/pkg/matchers"
 	"rare/pkg/matchers/dissect"
 	"rare/pkg/matchers/fastregex"
+	"rare/pkg/readahead"
+	"rare/pkg/slicepool"
 	vrt "rare/verifrt"
 	"rare/verifrt/vos"
 	"verif/mc"
@@ -293,6 +295,11 @@ func buildMatcher(name string) matchers.Factory {
 var matcherCache = map[string]matchers.Factory{}
 
 func body(c *Config, o *obs) {
+	// executions of one process must not see each other's package-level state
+	batchers.VerifResetGlobals()
+	extractor.VerifResetGlobals()
+	slicepool.VerifResetGlobals()
+	readahead.VerifResetGlobals()
 	fs := vos.Reset()
 	o.delivered = make([]int, len(c.Sources))
 	var b *batchers.Batcher
